@@ -492,6 +492,34 @@ func TestC07(t *testing.T) {
 		return hdrCase{H: genHeader(t, 6), Delivery: genDelivery(t)}
 	}, checkB)
 
+	// history: a Marshal into a failing writer must not influence later Marshals
+	type failThenOK struct {
+		H1, H2 refage.Header
+		FailAt int `json:"failAt"`
+	}
+	pbt.Rapid(s, "marshal-after-failed-write", s.N(3000, 20000), func(t *rapid.T) failThenOK {
+		return failThenOK{H1: genHeader(t, 3), H2: genHeader(t, 3), FailAt: rapid.IntRange(0, 40).Draw(t, "failAt")}
+	}, func(c failThenOK) error {
+		toFmt := func(h refage.Header) *format.Header {
+			fh := &format.Header{MAC: h.MAC}
+			for _, st := range h.Stanzas {
+				fh.Recipients = append(fh.Recipients, &format.Stanza{Type: st.Type, Args: st.Args, Body: st.Body})
+			}
+			return fh
+		}
+		fw := &hx.FaultWriter{FailAt: c.FailAt, ByteLimit: -1, Partial: c.FailAt%2 == 0}
+		ferr := toFmt(c.H1).Marshal(fw)
+		var buf bytes.Buffer
+		if err := toFmt(c.H2).Marshal(&buf); err != nil {
+			return pbt.Failf("C07/marshal-error", "Marshal failed: %v", err)
+		}
+		s.St.Case(ferr != nil, stats.HashJSON(c), "marshal-after-failed-write")
+		if !bytes.Equal(buf.Bytes(), c.H2.Marshal()) {
+			return pbt.Failf("C07/marshal-depends-on-history", "after a Marshal into a failing writer (write %d failed: %v) the next Marshal of a well-formed header gives different bytes than the specification encoding:\n got  %q\n want %q", c.FailAt, ferr, trunc(buf.Bytes()), trunc(c.H2.Marshal()))
+		}
+		return nil
+	})
+
 	// bufio special path: Parse given a *bufio.Reader must leave that reader at the payload
 	type bufCase struct {
 		H    refage.Header `json:"h"`
